@@ -1344,11 +1344,21 @@ impl CodegenContext {
         f: F,
     ) -> CoreResult<()> {
         let prev_segment = self.current_segment.clone();
-        self.segments
+        // Dummy segments nest (a branch that is not taken inside a macro that is not invoked): the enclosing one is
+        // still needed when this one is done
+        let prev_dummy = self
+            .segments
             .insert("$dummy".into(), Segment::new(SegmentOptions::default()));
         self.current_segment = Some(Identifier::new("$dummy"));
         let result = f(self);
-        self.segments.remove(&Identifier::new("$dummy"));
+        match prev_dummy {
+            Some(dummy) => {
+                self.segments.insert("$dummy".into(), dummy);
+            }
+            None => {
+                self.segments.remove(&Identifier::new("$dummy"));
+            }
+        }
         self.current_segment = prev_segment;
         result
     }
